@@ -68,6 +68,7 @@ def check(model, rep):
         'def Norm(v):\n    return np.sqrt(v[0] ** 2 + v[1] ** 2 + v[2] ** 2)\n',
         'def Norm(v):\n    return np.linalg.norm(v)\n')]
     rep.ob('R09.1', nm, 'Norm(v) = Euclidean length of a 3-vector', any(r[0] for r in res), 'Norm is not the Euclidean length: ' + res[0][1])
+    from ..engine.inline import norm_text as _nt
     sp = model.cls(SPM, 'SP')
     ih = sp.methods.get('_IKHelper')
     if ih is None:
@@ -87,6 +88,31 @@ def check(model, rep):
     rep.ob('R09.1', ih, 'SPIKinSpace(bottom pose, top pose, bottom-local, top-local, buffers) -> (lengths, bottom joints, top joints); '
            'relative transform = globalToLocal(bottom, top)', ok, '_IKHelper does not pass / store the kernel\'s arguments and results in order: ' + why)
 
+    # ---------------------------------------------------------------- R09.6
+    rep.rule('R09.6', 'the leg lengths _IKHelper hands back (and IK returns) are a snapshot: not the array stored in self.lengths, which the '
+                      'corrective actions of validate() rewrite in place before IK returns')
+
+    def is_copy(e):
+        return (isinstance(e, ast.Call) and _nt(e.func) in ('np.copy', 'numpy.copy', 'np.array', 'numpy.array', 'copy.copy', 'copy.deepcopy')) or \
+               (isinstance(e, ast.Call) and isinstance(e.func, ast.Attribute) and e.func.attr == 'copy' and not e.args)
+    il_h = Inliner(ih)
+    rets_h = il_h.returns()
+    stored_h = [n for n in walk_own(ih.node) if isinstance(n, ast.Assign) and any(_nt(t) == 'self.lengths' for t in
+                (x for t0 in n.targets for x in (t0.elts if isinstance(t0, ast.Tuple) else [t0])))]
+    for r_ in rets_h:
+        first = r_.value.elts[0] if isinstance(r_.value, ast.Tuple) and r_.value.elts else r_.value
+        if is_copy(first) or is_copy(il_h.expand(first)):
+            ok_, why_ = True, 'a copy'
+        else:
+            # the returned object is whatever `first` names; it is distinct from the stored one only if the STORE took a copy
+            st_copy = bool(stored_h) and all(isinstance(n.targets[0], ast.Attribute) and (is_copy(n.value) or is_copy(il_h.expand(n.value))) for n in stored_h)
+            reads_field = _nt(il_h.expand(first)) == 'self.lengths' or _nt(first) == 'self.lengths'
+            ok_ = st_copy and not reads_field
+            why_ = 'returns %s while self.lengths is bound to %s' % (_nt(first), [_nt(n.value)[:40] for n in stored_h])
+        rep.ob('R09.6', ih, 'returned lengths are not the stored array', ok_,
+               '_IKHelper %s: IK hands its caller the live self.lengths; when the pose needs a corrective action (legs outside their limits) the '
+               'in-place adjustments change the returned array too, so IK no longer returns the joint distances of the requested poses' % why_, line=r_.lineno)
+    rep.floor('R09.6', 'return statements of _IKHelper', len(rets_h), 1)
     # ---------------------------------------------------------------- R09.2
     rep.rule('R09.2', 'FK joint tables re-derived after every replacement of the plate-fixed joint coordinates (all paths, all public methods)')
     from ..engine import peval as _pe
